@@ -176,6 +176,11 @@ Proof.
 Qed.
 Lemma find_field_sh : forall fs f, find_field fs (sh f) = find_field fs f.
 Proof. reflexivity. Qed.
+Lemma args_has_pos_sh : forall a, args_has_pos (sh_args m a) = args_has_pos a.
+Proof.
+  induction a as [|ch e r IH]; [reflexivity|].
+  cbn [sh_args]. destruct ch; cbn [om_choice args_has_pos]; try reflexivity; exact IH.
+Qed.
 
 Definition A_c (e : expr) : Prop := forall l, interp md GE G e = Ok l -> interp md GE G1 (sh_expr m e) = Ok l.
 Definition R_c (e : expr) : Prop := forall t v, root md GE G t e = Ok v -> root md GE G1 t (sh_expr m e) = Ok v.
@@ -269,8 +274,13 @@ Proof.
     + intros i i' all fs v H. cbn [sh_args]. destruct ch as [|f|]; cbn [om_choice]; autorewrite with chkeq in *.
       * destruct fs as [|ft fs']; [discriminate H|]. minv H. rewrite (IHr _ _ E). cbn [bind]. eapply IHf; exact K.
       * rewrite find_field_sh. destruct (find_field all f) as [x|]; [|discriminate H]. minv H.
-        cbn [shift_occ o_id o_nid]. rewrite E. cbn [guard bind]. rewrite (IHr _ _ E0). cbn [bind]. eapply IHf; exact K0.
-      * discriminate H.
+        cbn [shift_occ o_id o_nid]. rewrite E. cbn [guard bind]. rewrite args_has_pos_sh, E0. cbn [guard bind].
+        match goal with Hr : root md GE G (snd x) e = Ok _ |- _ => rewrite (IHr _ _ Hr) end. cbn [bind].
+        eapply IHf; eassumption.
+      * destruct r as [|c' e' r']; cbn [sh_args]; autorewrite with chkeq in *; [|discriminate H].
+        destruct fs as [|ft fs']; [discriminate H|].
+        destruct (forallb (fun y => sty_eqb (snd y) (snd ft)) fs'); cbn [guard bind] in *; [|discriminate H].
+        eapply IHr; exact H.
     + intros i i' el n v H. cbn [sh_args]. destruct ch as [|f|]; cbn [om_choice].
       * autorewrite with chkeq in *. destruct n as [|n']; [discriminate H|]. minv H.
         rewrite (IHr _ _ E). cbn [bind]. eapply IHel; exact K.
